@@ -212,7 +212,16 @@ func capSplits(q *refmodel.LogQuery) []logqlengine.QuerierCapabilities {
 		full.Label.Add(op)
 		full.Line.Add(op)
 	}
-	for _, extra := range []logqlengine.QuerierCapabilities{dockerLike, full} {
+	extras := []logqlengine.QuerierCapabilities{dockerLike, full}
+	if len(q.Sel) > 0 {
+		// a storage that evaluates the positive operators only, and one that evaluates the negated ones only,
+		// whatever the selector holds (what is not declared is left to the engine)
+		var pos, neg logqlengine.QuerierCapabilities
+		pos.Label.Add(logql.OpEq, logql.OpRe)
+		neg.Label.Add(logql.OpNotEq, logql.OpNotRe)
+		extras = append(extras, pos, neg)
+	}
+	for _, extra := range extras {
 		dup := false
 		for _, c := range out {
 			if c == extra {
